@@ -83,8 +83,8 @@ def check_first_reply(v, cfg, kind, req_opts, file_len, first, addr_ok, replay):
     return "plain"
 
 
-def first_reply(addr, kind, name, wire_opts):
-    s = N._sock(timeout=0.4)
+def first_reply(addr, kind, name, wire_opts, patience=0.4):
+    s = N._sock(timeout=patience)
     try:
         s.sendto(N.enc_req(N.RRQ if kind == "RRQ" else N.WRQ, name, options=wire_opts), addr)
         tr = N.Transfer()
@@ -245,6 +245,9 @@ def run(tier):
                     name = "f700.bin" if kind == "RRQ" else f"w{i}.bin"
                     evaluations += 1
                     first = firsts[i]
+                    if first[0] is None and all(honourable(k, val) for k, val in logical if k):
+                        # a missing reply is only believed after a second, patient attempt (loaded machine)
+                        first = first_reply(srv.addr, kind, name if kind == "RRQ" else f"w{i}_again.bin", wire, patience=3.0)
                     replay = {"engine": "net", "config": cfg, "kind": kind, "name": name, "options_on_wire": wire, "first_reply": str(first)[:200]}
                     outcome = check_first_reply(v, cfg, kind, logical, 700, first, None, replay)
                     if first[0] is not None and single and first[2] != srv.addr:
